@@ -1204,9 +1204,13 @@ class CodeGenerator(StructuredCodeGenerator):
         sym_table = self.sym_kind_table.per_phase_table.get(
                 self.current_function, {})
 
+        # Every local is deinitialized here, not only the ones that no statement
+        # mentions: the deinit after the last statement that mentions a variable
+        # is skipped by 'goto 999' (FailStep, SwitchPhase), by a false guard
+        # around that statement, and is not emitted at all for YieldState.
+        # Deinit of a pointer that is already nullified does nothing.
         for identifier, sym_kind in sorted(sym_table.items()):
-            if (identifier, self.current_function) not in self.last_used_stmt_table:
-                self.emit_variable_deinit(identifier, sym_kind)
+            self.emit_variable_deinit(identifier, sym_kind)
 
         # }}}
 
